@@ -266,6 +266,13 @@ def _split(it, a, k, n):
     h = it.reg.overrides.get("str.split")
     if h is not None:
         return h(it, s, sep, n)
+    if maxsplit is None and not it.spec:
+        # s.split(sep): an unknown number (at least one) of unknown pieces -- over-approximation (sound): neither the
+        # join law nor "no piece contains sep" is kept
+        from .fresh import fresh_value
+        r = fresh_value(it, ("list", s.kind), it.ctx.fresh_name("split"))
+        it.ctx.assume(r.length >= 1, "split(sep):at-least-one-piece")
+        return r
     raise Unsupported("general split on symbolic string")
 
 
